@@ -45,6 +45,7 @@ func c07(c *core.Ctx) string {
 		c07Fetch(c, recv)
 	}
 	c07Resp(c)
+	c07GzipPull(c)
 	return "Path-sensitive typestate over serveHTTP (fetch dominates dispatch, 413/400 mapping), value-source events for the effective limit selection at both levels, and an all-paths audit of the two FetchPayload implementations (default replacement, stream only for negative limits, allocation bounded by the limit, short reads reported, LimitReader + io.Copy probe on the chunked path) and of buildResponse/doHandle (failed fetch ⇒ no output response, 5xx). Not decided: the numeric comparison exactly at the limit."
 }
 
